@@ -151,7 +151,7 @@ class Inst:
         return self.ret[len('Except '):] if self.raises else self.ret
 
     def key(self):
-        return (self.qual, tuple(t for _n, t in self.params[1:])) if self.params and self.params[0][0] == 'self' \
+        return (self.qual, tuple(t for _n, t in self.params[1:])) if self.params and self.params[0][0] in ('self', 'cls') \
             else (self.qual, tuple(t for _n, t in self.params))
 
 
@@ -318,6 +318,8 @@ class FnTr:
                     self.env[n] = Val('true' if d.value else 'false', 'Bool')
                 elif isinstance(d, ast.Constant) and d.value is None:
                     self.env[n] = Val('()', 'None')
+                elif isinstance(d, ast.Constant) and isinstance(d.value, int):
+                    self.env[n] = Val(f'({d.value} : Int)', 'Int')
                 # other defaults stay unbound: using them is reported as an unsupported name
 
     def sub(self):
@@ -494,11 +496,11 @@ class FnTr:
         if isinstance(test, ast.UnaryOp) and isinstance(test.op, ast.Not):
             return self.branch(test.operand, else_k, then_k)
         # A and B  ==  if A then (if B then T else E) else E
-        if isinstance(test, ast.BoolOp) and isinstance(test.op, ast.And) and self.has_optional_test(test):
+        if isinstance(test, ast.BoolOp) and isinstance(test.op, ast.And) and (self.has_optional_test(test) or self.may_raise(test)):
             first, others = test.values[0], test.values[1:]
             more = others[0] if len(others) == 1 else ast.BoolOp(op=ast.And(), values=others)
             return self.branch(first, lambda tr: tr.branch(more, then_k, else_k), else_k)
-        if isinstance(test, ast.BoolOp) and isinstance(test.op, ast.Or) and self.has_optional_test(test):
+        if isinstance(test, ast.BoolOp) and isinstance(test.op, ast.Or) and (self.has_optional_test(test) or self.may_raise(test)):
             first, others = test.values[0], test.values[1:]
             more = others[0] if len(others) == 1 else ast.BoolOp(op=ast.Or(), values=others)
             return self.branch(first, then_k, lambda tr: tr.branch(more, then_k, else_k))
@@ -516,6 +518,20 @@ class FnTr:
         a, b = self.sub(), self.sub()
         a.fresh = b.fresh = self.fresh
         return self.wrap(f'if {c} then\n{_indent(then_k(a))}\nelse\n{_indent(else_k(b))}')
+
+    def may_raise(self, test):
+        """an `and` / `or` test one of whose operands may raise: its operands are tested one after the other (Python's short
+        circuit), the raising call is bound where it is evaluated.  Only for units that declare `short_circuit_raises`."""
+        if not (self.inst.raises and 'short_circuit_raises' in self.u.hooks):
+            return False
+        t = self.sub()
+        t.fresh = self.fresh
+        try:
+            for v in test.values:
+                t.expr(v)
+        except Unsupported:
+            return False
+        return bool(t.pending)
 
     def has_optional_test(self, test):
         if isinstance(test, ast.BoolOp):
@@ -619,6 +635,12 @@ class FnTr:
             if not isinstance(value, ast.Tuple) or len(value.elts) != len(tgt.elts):
                 raise Unsupported(f'`{self.inst.qual}`: tuple assignment from a non-tuple')
             vals = [self.expr(e) for e in value.elts]        # right-hand sides are all evaluated first
+            for i, (t, v) in enumerate(zip(tgt.elts, vals)):
+                if '?' in v.typ and isinstance(t, ast.Name):
+                    hint = self.u.hooks.get('local_type', lambda q, n: None)(self.inst.qual, t.id)
+                    if not hint:
+                        raise Unsupported(f'`{self.inst.qual}`: element type of `{t.id}` is not declared')
+                    vals[i] = Val(f'({v.text} : {lean_type(hint)})', hint)
             pairs = list(zip(tgt.elts, vals))
         else:
             v = self.expr(value, allow_raise=True)
@@ -923,6 +945,9 @@ class FnTr:
             return Val('(' + self.branch(e, lambda tr: 'true', lambda tr: 'false') + ')', 'Bool')
         if isinstance(e, ast.BoolOp):
             vals = [self.expr(v) for v in e.values]
+            if isinstance(e.op, ast.Or) and len(vals) == 2 and vals[0].typ == vals[1].typ and vals[0].typ.startswith('List ') \
+                    and 'sequences' in self.u.hooks:
+                return Val(f'(if !({vals[0].text}).isEmpty then {vals[0].text} else {vals[1].text})', vals[0].typ)    # `xs or ys`
             if not all(v.typ == 'Bool' for v in vals):
                 # `a and b` on non-bools returns an operand; only allowed where it is consumed as a truth value
                 vals = [Val(self.truth(v), 'Bool') for v in vals]
@@ -1005,6 +1030,8 @@ class FnTr:
             raise Unsupported(f'tuple `{ast.unparse(e)}`')
         if isinstance(e, ast.List) and not e.elts:
             return Val('[]', 'List ?')
+        if isinstance(e, ast.Dict) and not e.keys and 'local_type' in self.u.hooks:
+            return Val('[]', 'Dict ?')                 # `{}`: typed by the unit's `local_type`
         if isinstance(e, ast.List) and e.elts:
             parts, typ = [], None
             for el in e.elts:
@@ -1042,6 +1069,14 @@ class FnTr:
                 if isinstance(sl, ast.Slice) and sl.lower is None and sl.upper is None and isinstance(sl.step, ast.UnaryOp) \
                         and isinstance(sl.step.op, ast.USub) and isinstance(sl.step.operand, ast.Constant) and sl.step.operand.value == 1:
                     return Val(f'(({v.text}).reverse)', v.typ)        # xs[::-1]
+                if isinstance(sl, ast.Slice) and sl.lower is None and sl.step is None and isinstance(sl.upper, ast.Constant) \
+                        and isinstance(sl.upper.value, int) and sl.upper.value >= 0 and 'sequences' in self.u.hooks:
+                    return Val(f'(({v.text}).take {sl.upper.value})', v.typ)        # xs[:n]
+                if isinstance(sl, ast.UnaryOp) and isinstance(sl.op, ast.USub) and isinstance(sl.operand, ast.Constant) \
+                        and sl.operand.value == 1 and 'sequences' in self.u.hooks:
+                    r = Val(f'(GV.Py.getLast {_paren(v.text)})', v.typ[5:])        # xs[-1]
+                    r.raises = True
+                    return r
                 if isinstance(sl, ast.Constant) and isinstance(sl.value, int) and sl.value >= 0:
                     r = Val(f'(GV.Py.getIdx {_paren(v.text)} {sl.value})', v.typ[5:])
                     r.raises = True                      # IndexError when the list is too short
@@ -1166,6 +1201,12 @@ class FnTr:
         return v
 
     def call(self, e):
+        if 'call' in self.u.hooks:
+            r = self.u.hooks['call'](self, e)          # a call the unit reads as a whole (declared in srcunits)
+            if r is not None:
+                return r
+        if e.keywords and 'bind_keywords' in self.u.hooks:
+            e = self.u.hooks['bind_keywords'](self, e) or e       # keyword arguments put in their positions
         if e.keywords and not all(k.arg is None for k in e.keywords):
             hook = self.u.hooks.get('keywords')
             if not (hook and hook(self, e)):
@@ -1208,6 +1249,14 @@ class FnTr:
                 raise Unsupported(f'float() of {v.typ}')
             if f.id == 'hash' and len(e.args) == 1:
                 return self.expr(e.args[0])           # the value handed to hash()
+            if f.id == 'len' and len(e.args) == 1 and not e.keywords and 'sequences' in self.u.hooks:
+                v = self.expr(e.args[0])
+                if v.typ.startswith('List ') or v.typ == 'Str':
+                    return Val(f'(({v.text}).length : Int)', 'Int')
+                raise Unsupported(f'len() of {v.typ}')
+            if f.id == 'list' and len(e.args) == 1 and not e.keywords and 'strings' in self.u.hooks \
+                    and self.expr(e.args[0]).typ == 'Str':
+                return Val(f'(({self.expr(e.args[0]).text}).toList)', 'List Chr')        # list('zm') == ['z', 'm']
             if f.id in ('list', 'tuple', 'reversed') and len(e.args) == 1 and not e.keywords and 'sequences' in self.u.hooks:
                 # every finite sequence (list, tuple, the iterator of `reversed`) is the list of its elements
                 v = self.expr(e.args[0])
@@ -1246,6 +1295,16 @@ class FnTr:
         if isinstance(f, ast.Attribute) and isinstance(f.value, ast.Call) and isinstance(f.value.func, ast.Name) \
                 and f.value.func.id == 'super' and not f.value.args and 'super_method' in self.u.hooks:
             return self.u.hooks['super_method'](self, f.attr, e.args)
+        if isinstance(f, ast.Attribute) and isinstance(f.value, ast.Name) and f.value.id not in self.env \
+                and 'resolve' in self.u.hooks and f.value.id in getattr(self.u.src, 'bases', {}):
+            # `Class.method(…)`: a classmethod / staticmethod reached through the class name
+            qual = self.u.hooks['resolve'](f.value.id, f.attr)
+            if qual is None:
+                raise Unsupported(f'`{self.inst.qual}`: `{f.value.id}.{f.attr}` not found')
+            args = [self.expr(a) for a in e.args]
+            inst = self.u.find(qual, tuple(a.typ for a in args))
+            has_cls = bool(inst.params) and inst.params[0][0] == 'cls'
+            return self.apply(inst, ([Val('()', inst.params[0][1])] if has_cls else []) + args)
         if isinstance(f, ast.Attribute):
             recv = self.expr(f.value)
             if recv.typ == 'Str':
@@ -1332,9 +1391,17 @@ class FnTr:
         inner.fresh = self.fresh
         inner.env[g.target.id] = Val(x, xs.typ[5:], path=g.target.id)
         inner.narrow.pop(g.target.id, None)
-        v = inner.expr(e.elt)
-        if inner.pending:
-            raise Unsupported(f'`{self.inst.qual}`: a call that may raise inside `{ast.unparse(e)[:60]}`')
+        v = inner.expr(e.elt, allow_raise=True)
+        if inner.pending or getattr(v, 'raises', False):
+            # an element that may raise: evaluated left to right, the first exception ends the comprehension
+            if not self.inst.raises:
+                raise Unsupported(f'`{self.inst.qual}`: a call that may raise inside `{ast.unparse(e)[:60]}`')
+            body = inner.wrap(v.text if getattr(v, 'raises', False) else inner.ok(v.text))
+            self.fresh = inner.fresh
+            r = Val(f'(GV.Py.mapE (fun {x} => (show {lean_type("Except " + v.typ)} from\n{_indent(body, 4)})) {_paren(xs.text)})',
+                    'List ' + v.typ)
+            r.raises = True
+            return r
         self.fresh = inner.fresh
         if v.text == x:
             return Val(xs.text, xs.typ)
@@ -1364,6 +1431,8 @@ class FnTr:
             if xs.typ != 'List Str':
                 raise Unsupported(f'join over {xs.typ}')
             return Val(f'(String.intercalate {_paren(recv.text)} {_paren(xs.text)})', 'Str')
+        if attr == 'lower' and not args:
+            return Val(f'(({recv.text}).toLower)', 'Str')
         raise Unsupported(f'`{self.inst.qual}`: string method `.{attr}`')
 
     def any_all(self, which, g):
